@@ -194,6 +194,30 @@ class Inst:
         return self._pw_witness
 
 
+def canon_value(v, depth=0):
+    """hashable canonical form of an attribute value of a session instance"""
+    if isinstance(v, (bytes, int, bool, str, float)) or v is None:
+        return v
+    if isinstance(v, (list, tuple)):
+        return tuple(canon_value(i, depth + 1) for i in v)
+    tb = getattr(v, "to_bytes", None)
+    if callable(tb) and not isinstance(v, int):
+        try:
+            return ("elem", type(v).__name__, tb())
+        except Exception:
+            return ("elem?", type(v).__name__)
+    if isinstance(v, Script):
+        return ("script", len(v.calls))
+    if callable(v):
+        return ("callable", getattr(v, "__name__", type(v).__name__))
+    return ("obj", type(v).__name__, id(v))
+
+
+def canon_instance(obj):
+    """complete instance __dict__ in canonical form (elements by type + encoding, entropy script by position)"""
+    return tuple(sorted((k, canon_value(v)) for k, v in vars(obj).items()))
+
+
 def read_scalar(inst, obj):
     """secret scalar of a started instance as reported through serialize() (public API),
     decoded by the reference codec; None if it cannot be read"""
